@@ -14,6 +14,8 @@ Oracle (independent, brute force): per pid, on what the stage emits and on the f
   sample times strictly increasing, every sample value = #{Prep slices with start <= t < end}, a sample at every
   instant where that number changes, series ends at 0, no samples without Prep slices; Prep slices absent from
   the output iff not keep_prep, every other event passed through unchanged, once, in order.
+Empty Prep intervals (dur <= 0: never in flight) are an ordinary part of every stream: since the fix of the
+zero-duration defect found by this check, create_counter ignores them (C13_empty_interval_ignored).
 """
 import contextlib
 import copy
@@ -34,7 +36,7 @@ from common import coqrun, enc
 ID = "C13"
 PROP_FILE = "props/C13.v"
 THEOREMS = ["C13_counter_correct", "C13_prep_removed_iff_not_keep", "C13_queue_step_denotation",
-            "C13_sorted_by_ts_suffices", "C13_zero_length_refuted"]
+            "C13_sorted_by_ts_suffices", "C13_empty_interval_ignored"]
 ALLOWED_AXIOMS = []
 TRUSTED = [
     "modelled, not verified: Python dict insertion order / popitem (LIFO), list.sort stability in "
@@ -47,28 +49,29 @@ ASSUMPTIONS = [
     "per pid, Prep slices reach queueing_counter in non-decreasing order of ts (delivered by "
     "MpSyncTightContext.drain's sort; checked on every end-to-end run by the oracle; -M/--skip_mpsync is outside "
     "the property's domain)",
-    "every Prep slice has dur > 0 (an empty interval breaks the property on the current tree: "
-    "C13_zero_length_refuted, reported by the oracle with signature kind=zero_length_prep)",
     "the prep_queue counter is enabled (default -C list) and the event's job is known to GlobalIngestData",
 ]
 MANIFEST = {
     "text": "Proof. Coq theorems over an executable model of QueueingCounterContext.update_queues/create_counter/"
             "drain and queueing_counter (per-pid breakpoint lists, keep_prep), for arbitrary event streams of any "
-            "length over any number of pids (no bound): if per pid the Prep slices arrive start-sorted and have "
-            "dur > 0, then per pid the emitted samples have strictly increasing times, each value equals "
+            "length over any number of pids (no bound): if per pid the Prep slices arrive start-sorted (no "
+            "hypothesis on durations: a slice with end <= start counts nowhere and, by create_counter's guard, "
+            "leaves no trace), then per pid the emitted samples have strictly increasing times, each value equals "
             "#{start <= t < end}, the denoted step function equals that number at EVERY time, every start and end "
             "is a sample time, the series ends at 0, pids without Prep get no sample (C13_counter_correct); the "
             "events passed through are exactly the input minus Prep slices unless keep_prep "
             "(C13_prep_removed_iff_not_keep). The model is tied to the code on every run by correspondence: the "
-            "real stage on all start-sorted families of <= 4 (thorough 5) intervals on a 0..6 (0..7) grid x "
-            "keep_prep, random multi-pid streams, out-of-domain streams, update_queues on arbitrary lists, the "
-            "Prep name test, and the stage as it runs inside real Acelyzer runs with/without --keep_prep; an "
-            "independent brute-force oracle checks the property on the stage output and on the exported JSON.",
+            "real stage on all start-sorted families of <= 4 intervals on the integer grid 0..6 (thorough: <= 5 on "
+            "0..6 and <= 4 on 0..7, plus two-rank merges) x keep_prep, random multi-pid streams, out-of-domain "
+            "streams, update_queues on arbitrary lists, the Prep name test, and the stage as it runs inside real "
+            "Acelyzer runs with/without --keep_prep (stage input/output recorded in the run); an independent "
+            "brute-force oracle checks the property on the stage output (also on an off-grid decimal stream) and on "
+            "the exported JSON of in-process and command-line runs.",
     "note": "Trusted: Coq kernel + vm_compute; hand-written model PrepQueue.v tied by differential testing only; "
-            "floats on the exact grid. The property is FALSE on the current tree for an empty Prep interval "
-            "(dur = 0, i.e. TS2 == TS3): two samples at the same time, value 1 where no slice is in flight, and the "
-            "exported series ends at 1 - proved as C13_zero_length_refuted, reported by the oracle (signature "
-            "kind=zero_length_prep). Print Assumptions: closed under the global context.",
+            "floats on the exact grid. The check found that a Prep slice with dur = 0 broke the property (two samples "
+            "at one time, exported series ending at 1); fixed in /repo (create_counter ignores end <= start), the "
+            "model follows the fixed code and seeded/revert_fix_C13c re-introduces the defect. Print Assumptions: "
+            "closed under the global context.",
     "technique": "Coq proof (invariant over the streaming breakpoint list, induction over the event stream) + "
                  "vm_compute correspondence against the real stage and real end-to-end runs + brute-force oracle",
     "design_ref": "DESIGN.md section 4/C13, design-spikes/prepqueue_den.v (absorbed)",
@@ -376,30 +379,27 @@ def check_series(ivs, samples):
         prev_pt = p
     if any(s < e for s, e in ivs) and (not sm or sm[-1][1] != 0):
         bad.append(("series_does_not_end_at_0", {"last": None if not sm else [float(sm[-1][0]), sm[-1][1]]}))
-    if not ivs and sm:
+    if not any(s < e for s, e in ivs) and sm:
         bad.append(("samples_without_prep", {"n": len(sm)}))
     return bad
 
 
 def in_domain(spec):
-    """hypotheses of the property: no event that makes the stage raise, per pid Prep starts non-decreasing.
-    Returns (ok, has_zero_length)"""
+    """hypotheses of the property: no event that makes the stage raise, per pid Prep starts non-decreasing
+    (durations are free: a slice with end <= start is simply never in flight)"""
     last = {}
-    zero = False
     for s in spec:
         if s["ph"] in ("", "X") and s.get("job", J_FLEX) == J_UNKNOWN:
-            return False, zero
+            return False
         if s["ph"] == "":
-            return False, zero
+            return False
         if spec_is_prep(s):
-            if s.get("dur") is None or s["dur"] < 0:
-                return False, zero
-            if s["ts"] + s["dur"] == s["ts"]:      # empty interval, also when a tiny dur is absorbed by the float sum
-                zero = True
+            if s.get("dur") is None:
+                return False
             if s["pid"] in last and s["ts"] < last[s["pid"]]:
-                return False, zero
+                return False
             last[s["pid"]] = s["ts"]
-    return True, zero
+    return True
 
 
 def oracle_stage(keep, spec, out):
@@ -484,11 +484,9 @@ def oracle_e2e(sc, keep, res):
     return bad
 
 
-def fail_rec(level, inp, bad, expected, observed, zero=False):
+def fail_rec(level, inp, bad, expected, observed):
     kind, facts = bad[0]
     sig = {"kind": kind, "level": level}
-    if zero:
-        sig = {"kind": "zero_length_prep", "symptom": kind, "level": level}
     sig.update({k: v for k, v in facts.items() if k in ("exception", "pid")})
     return {"input": dict(inp, level=level), "expected": expected, "observed": observed,
             "signature": sig, "all_symptoms": [k for k, _ in bad]}
@@ -499,9 +497,10 @@ def P(pid, s, e, name="k Cmpt Prep", job=J_FLEX):
     return {"ph": "X", "name": name, "pid": pid, "ts": float(s), "dur": float(e) - float(s), "job": job}
 
 
-def families(G, N):
-    """all start-sorted sequences (every order among equal starts) of <= N intervals [a, b) on 0..G"""
-    ivs = [(a, b) for a in range(G) for b in range(a + 1, G + 1)]
+def families(G, N, empties=False):
+    """all start-sorted sequences (every order among equal starts) of <= N intervals [a, b) on 0..G;
+    empties=True adds the empty intervals [a, a)"""
+    ivs = [(a, b) for a in range(G + 1) for b in range(a if empties else a + 1, G + 1)]
     out = [[]]
 
     def rec(prefix, n):
@@ -604,6 +603,8 @@ def gen_scenario(r, small=False):
             for _try in range(20):
                 s = Fraction(r.randint(0, tmax * grid), grid)
                 d = Fraction(r.randint(1, max(1, tmax * grid // 2)), grid)
+                if r.random() < 0.12:
+                    d = Fraction(0)           # TS2 == TS3: an empty Prep slice
                 cand = (base + s, base + s + d)
                 ivs = [(x["s"], x["e"]) for x in evs if x["kind"] == "prep"] + [cand]
                 # the overlap stage (not under test) gives up beyond 6 partially overlapping lanes per tid
@@ -722,10 +723,7 @@ def load_corpus():
 
 
 # ================================================================ the check
-NO_ZERO = os.environ.get("VERIF_C13_NO_ZERO", "") == "1"
-
-
-def stage_fail(keep, spec, out, zero):
+def stage_fail(keep, spec, out):
     bad = oracle_stage(keep, spec, out)
     if not bad:
         return None
@@ -733,21 +731,19 @@ def stage_fail(keep, spec, out, zero):
                  "per pid: samples strictly increasing in time, value = #{Prep: start <= t < end}, sample at every "
                  "change, last sample 0; Prep slices passed on iff keep_prep; everything else passed on unchanged",
                  {"symptoms": [[k, fa] for k, fa in bad][:4],
-                  "stage_output": out.tag if isinstance(out, enc.Err) else out}, zero=zero)
+                  "stage_output": out.tag if isinstance(out, enc.Err) else out})
     return f
 
 
 def shrink_stage(f):
     keep, spec = f["input"]["keep_prep"], list(f["input"]["events"])
-    zero = f["signature"]["kind"] == "zero_length_prep"
-    want = f["signature"].get("symptom", f["signature"]["kind"])
+    want = f["signature"]["kind"]
 
     def still(sp):
-        ok, z = in_domain(sp)
-        if not ok or (z and not zero):
+        if not in_domain(sp):
             return None
-        g = stage_fail(keep, sp, run_stage_impl(keep, sp), zero)
-        if g and g["signature"].get("symptom", g["signature"]["kind"]) == want:
+        g = stage_fail(keep, sp, run_stage_impl(keep, sp))
+        if g and g["signature"]["kind"] == want:
             return g
         return None
     best = f
@@ -763,7 +759,7 @@ def shrink_stage(f):
     return best
 
 
-def e2e_fail(sc, keep, res, zero=False):
+def e2e_fail(sc, keep, res):
     bad = oracle_e2e(sc, keep, res)
     if not bad:
         return None
@@ -775,13 +771,12 @@ def e2e_fail(sc, keep, res, zero=False):
                     "exported iff --keep_prep",
                     {"symptoms": [[k, fa] for k, fa in bad][:4],
                      "exported_samples": {str(k): v for k, v in samples.items()},
-                     "exported_prep_slices": {str(k): v for k, v in preps.items()}, "error": res["err"]}, zero=zero)
+                     "exported_prep_slices": {str(k): v for k, v in preps.items()}, "error": res["err"]})
 
 
 def shrink_e2e(f, work, budget=40):
     keep, sc = f["input"]["keep_prep"], copy.deepcopy(f["input"]["scenario"])
-    zero = f["signature"]["kind"] == "zero_length_prep"
-    want = f["signature"].get("symptom", f["signature"]["kind"])
+    want = f["signature"]["kind"]
     best = f
     changed = True
     while changed and budget > 0:
@@ -793,8 +788,8 @@ def shrink_e2e(f, work, budget=40):
                 sc2 = copy.deepcopy(sc)
                 del sc2["ranks"][r][k]
                 budget -= 1
-                g = e2e_fail(sc2, keep, run_e2e_impl(sc2, keep, work), zero)
-                if g and g["signature"].get("symptom", g["signature"]["kind"]) == want:
+                g = e2e_fail(sc2, keep, run_e2e_impl(sc2, keep, work))
+                if g and g["signature"]["kind"] == want:
                     sc, best, changed = sc2, g, True
                     break
                 if budget <= 0:
@@ -805,7 +800,7 @@ def shrink_e2e(f, work, budget=40):
 
 
 def zero_scenarios():
-    """an empty Prep interval (TS2 == TS3) end to end"""
+    """an empty Prep interval (TS2 == TS3) end to end: the input of the defect fixed by a275d70"""
     return [{"ranks": [[{"kind": "prep", "name": "k0", "s": 1000.0, "e": 1004.0, "tid": 1},
                         {"kind": "prep", "name": "k1", "s": 1010.0, "e": 1010.0, "tid": 1}]]},
             {"ranks": [[{"kind": "prep", "name": "k0", "s": 1002.0, "e": 1002.0, "tid": 1}]]}]
@@ -816,7 +811,7 @@ def run(ctx):
     t_start = time.time()
     setup_jobs()
     notes = []
-    mismatches, oracle_failures, zero_failures = [], [], []
+    mismatches, oracle_failures = [], []
     ties, dist = [], {}
     seen_nt = set()
 
@@ -835,6 +830,11 @@ def run(ctx):
             if k not in seen_f:
                 seen_f.add(k)
                 fams.append(fam)
+    # the same with empty intervals [a, a) allowed (only the families that contain one are new)
+    G0, N0 = ctx.pick((5, 3), (5, 4))
+    for fam in families(G0, N0, empties=True):
+        if any(a == b for a, b in fam):
+            fams.append(fam)
     del seen_f
     n_fam = len(fams)
     for fam in fams:
@@ -874,14 +874,11 @@ def run(ctx):
         dist["stage_len"][ln] = dist["stage_len"].get(ln, 0) + 1
         if isinstance(out, enc.Err):
             dist["stage_errors"][out.tag] = dist["stage_errors"].get(out.tag, 0) + 1
-        ok, zero = in_domain(spec)
-        if ok:
+        if in_domain(spec):
             dist["stage_in_domain"] += 1
-            if zero and NO_ZERO:
-                continue
-            f = stage_fail(keep, spec, out, zero)
+            f = stage_fail(keep, spec, out)
             if f:
-                (zero_failures if zero else oracle_failures).append(f)
+                oracle_failures.append(f)
             key = json.dumps(spec, sort_keys=True)
             if key not in seen_nt and touching(spec):
                 seen_nt.add(key)
@@ -898,11 +895,10 @@ def run(ctx):
             if s.get("dur") is not None:
                 s["dur"] = round(s["dur"] * sc, 4)
         spec.sort(key=lambda x: x["ts"])
-        ok, zero = in_domain(spec)
-        if not ok or zero:
+        if not in_domain(spec):
             continue
         n_off += 1
-        f = stage_fail(keep, spec, run_stage_impl(keep, spec), False)
+        f = stage_fail(keep, spec, run_stage_impl(keep, spec))
         if f:
             f["input"]["origin"] = "off-grid"
             oracle_failures.append(f)
@@ -966,6 +962,8 @@ def run(ctx):
     # ---------------------------------------------------------------- end to end
     scs = [c["scenario"] for c in load_corpus() if c.get("level") == "e2e"]
     n_corpus_e2e = len(scs)
+    scs += zero_scenarios()
+    n_corpus_e2e = len(scs)
     scs += [gen_scenario(r) for _ in range(ctx.pick(110, 1500))]
     eterms, ecases = [], []
     TE = Terms()
@@ -1027,15 +1025,6 @@ def run(ctx):
     ties.append({"name": "oracle on the export of the real command line (python -m acelyzer.acelyzer)",
                  "cases": cli_runs, "mismatching": 0})
 
-    # empty Prep interval end to end (finding C13-zero-length)
-    if not NO_ZERO:
-        for sc in zero_scenarios():
-            for keep in (False, True):
-                res = run_e2e_impl(sc, keep, ctx.work)
-                f = e2e_fail(sc, keep, res, zero=True)
-                if f:
-                    zero_failures.append(f)
-
     # ---------------------------------------------------------------- shrink, order, report
     shrunk = []
     seen_sig = set()
@@ -1051,16 +1040,11 @@ def run(ctx):
             f = shrink_e2e(f, ctx.work)
         shrunk.append(f)
     # stage-level replays first (fast, minimal), then end-to-end ones
-    shrunk.sort(key=lambda f: {"stage": 0, "name": 1, "e2e": 2}.get(f["input"]["level"], 3))
-    zshr = []
-    zs = [f for f in zero_failures if f["input"]["level"] == "stage"]
-    ze = [f for f in zero_failures if f["input"]["level"] == "e2e"]
-    if ze:
-        zshr.append(ze[0])
-    if zs:
-        zshr.append(shrink_stage(zs[0]))
+    # ... and a violated conclusion of the property before a violated hypothesis / diagnosis
+    diag = ("stage_input_not_start_sorted", "keep_prep_not_forwarded", "queueing_counter_stage_not_run")
+    shrunk.sort(key=lambda f: (f["signature"]["kind"] in diag,
+                               {"stage": 0, "name": 1, "e2e": 2}.get(f["input"]["level"], 3)))
     dist["oracle_failures_total"] = len(oracle_failures)
-    dist["zero_length_failures_total"] = len(zero_failures)
     ctx._c13_bad_stage = stage_bad_specs
     shutil.rmtree(os.path.join(ctx.work, "e2e"), ignore_errors=True)
     shutil.rmtree(os.path.join(ctx.work, "cli"), ignore_errors=True)
@@ -1070,7 +1054,8 @@ def run(ctx):
         "evaluations": n_eval, "distinct_nontrivial": len(seen_nt),
         "rule": "stage tie: ALL start-sorted sequences (every order among equal starts) of <= N Prep intervals "
                 f"[a,b) with integer a < b on the grid 0..G for (G, N) in {grids} ({n_fam} families; keep_prep off "
-                f"for all, on for those of <= {keep_max} intervals: {n_grid} cases incl. corpus) + "
+                f"for all, on for those of <= {keep_max} intervals; included: all families of <= {N0} intervals on 0..{G0} "
+                f"that contain an empty interval [a,a): {n_grid} cases incl. corpus) + "
                 + ("30000 two-rank merges of such families + " if not ctx.quick() else "") +
                 "random multi-pid streams (sorted / "
                 "unsorted / malformed / with empty intervals) + update_queues on arbitrary lists + name test + "
@@ -1080,7 +1065,7 @@ def run(ctx):
                 f"{extras.get('nt')}",
         "samples": [{"keep_prep": kept[j][0], "events": kept[j][1]} for j in (n_grid - 1, n_grid + 1)] +
                    [{"e2e_scenario": scs[-1]}],
-        "mismatches": mismatches, "oracle_failures": shrunk + zshr,
+        "mismatches": mismatches, "oracle_failures": shrunk,
         "ties": ties, "distribution": dist, "exhaustive": True,
         "traces_validated_against_impl": n_eval, "notes": notes,
     }
@@ -1094,9 +1079,8 @@ def search(ctx, res, broken):
     r = random.Random(ctx.seed + 1013)
     t0 = time.time()
     for keep, spec, _ in getattr(ctx, "_c13_bad_stage", []):
-        ok, zero = in_domain(spec)
-        if ok and not zero:
-            f = stage_fail(keep, spec, run_stage_impl(keep, spec), False)
+        if in_domain(spec):
+            f = stage_fail(keep, spec, run_stage_impl(keep, spec))
             if f:
                 return [shrink_stage(f)]
     limit = ctx.pick(60, 600)
@@ -1104,8 +1088,8 @@ def search(ctx, res, broken):
     while time.time() - t0 < limit and n < ctx.pick(40000, 400000):
         n += 1
         keep = r.random() < 0.4
-        spec = gen_stream(r, domain=True)
-        f = stage_fail(keep, spec, run_stage_impl(keep, spec), False)
+        spec = gen_stream(r, domain=True, zero=r.random() < 0.3)
+        f = stage_fail(keep, spec, run_stage_impl(keep, spec))
         if f:
             return [shrink_stage(f)]
         if n % 50 == 0:
